@@ -19,11 +19,14 @@ RULE = ("four workloads drawn per run. filelock: 2-3 contenders with their own F
         "0-3 s, switch points at every open/flock/close/sleep, sometimes a holder's process killed while holding. "
         "commit: 2-3 local committers through MetadataManager with one process killed at a seeded storage call. "
         "s3cas: 2-3 contenders on the conditional-write S3 lock doing acquire/hold (polling is_held)/release with "
-        "process pauses and request stalls of 1-200 s around the 60 s lease, heartbeat actors running. s3poll: the "
+        "process pauses and request stalls of 1-200 s around the 60 s lease, heartbeat actors running, transient error bursts "
+        "and stalls on the conditional lock PUTs of a process (renewal / takeover path), and a directed renewal-vs-takeover "
+        "race profile (holder paused past its lease, breaker's If-Match PUT in flight). s3poll: the "
         "best-effort provider, only its two stated guarantees. Oracles: critical-section intervals of different "
-        "contenders never overlap; a takeover PUT is preceded by a HEAD at which true age > lease; acquire never "
-        "succeeds while another holder's lease is live; a superseded holder's is_held() is false; TimeoutError within "
-        "[timeout, timeout + poll/retry sleep + epsilon] for un-paused acquirers. Distinct = SHA-1 of lock/write "
+        "contenders never overlap; a takeover PUT is preceded by an inspection (HEAD or GET) at which true age > lease and "
+        "does not replace an object written (renewed / re-acquired) less than a lease ago; acquire never "
+        "succeeds while another holder's lease is live; a superseded holder's is_held() is false; TimeoutError no later than "
+        "timeout + poll/retry sleep + epsilon for un-paused acquirers. Distinct = SHA-1 of lock/write "
         "events + fired faults; non-trivial = contention, a takeover, a timeout or a holder death occurred.")
 ASSUMPTIONS = common.BASE_ASSUMPTIONS + [
     "real multi-process stress of the local lock is not simulation and is not done; separate fds in one interpreter take "
